@@ -78,6 +78,7 @@ def run(program, rep, tier):
             exits = w.run(setter, c)
             rep.count('paths', len(exits))
             bad = None
+            unmodelled = None
             stored_expr = None
             for ex in exits:
                 if ex.kind == 'raise':
@@ -92,6 +93,14 @@ def run(program, rep, tier):
                 if len(stores) != 1:
                     bad = bad or (setter.node, f'{len(stores)} stores into '
                                   f'self.{backing} on a path of the setter')
+                    continue
+                own_loop = [e for e in tr if e.kind in ('for', 'for-item')
+                            and e.sym is not None and '._events' in e.sym.text]
+                if not disp and own_loop:
+                    # the setter (a helper it calls) walks the listener table
+                    # itself instead of going through dispatch(): whether that
+                    # copy delivers exactly like dispatch() is not decided here
+                    unmodelled = unmodelled or own_loop[0]
                     continue
                 if len(disp) != 1:
                     bad = bad or (setter.node, f'{len(disp)} dispatches on a '
@@ -124,6 +133,14 @@ def run(program, rep, tier):
                                   f'and a read of it returns {read_expr}: '
                                   'the value carried by the event differs '
                                   'from what a read of the property returns')
+            if unmodelled is not None and bad is None:
+                rep.inconclusive(
+                    'C20.same-value', site, unmodelled.node,
+                    'on some path the setter notifies by walking the listener '
+                    'table itself (a copy of the delivery loop outside '
+                    'dispatch()): that the copy tells each listener once, '
+                    'with this value, is not modelled',
+                    line=getattr(unmodelled.node, 'lineno', None))
             rep.check(bad is None, 'C20.same-value', site,
                       bad[0] if bad else f'{prop} setter',
                       'store, then one dispatch of the matching event with '
